@@ -29,10 +29,17 @@ CompsM == {CNum(D(n)) : n \in NumsS} \cup {CX(c) : c \in XSpell}
 CompsR == {CAbs} \cup {CNum(D(n)) : n \in NumsS} \cup {CX(120)}
 PreChoices == {<<>>, <<tag0>>, <<tagA>>}
 \* well-formed partials: nothing follows an absent component; a tag needs all three components
-Partials ==
+PartialsPlain ==
   { pa \in { PartialOf(M, m, p, pre, <<>>) : M \in CompsM, m \in CompsR, p \in CompsR, pre \in PreChoices } :
       /\ (pa.m.t = "abs" => pa.p.t = "abs")
       /\ (pa.pre # <<>> => pa.p.t = "n" /\ pa.m.t = "n" /\ pa.M.t = "n") }
+\* a tag after a partial with a wildcard (`1.x.2-a`, `1.2.x-a`, `1.x.x-0`): grammatical - the qualifier follows the
+\* third component whatever it is - and irrelevant; single comparators only, to keep the pair models small
+PartialsWildTag ==
+  { pa \in { PartialOf(CNum(D(n)), m, p, pre, <<>>) : n \in NumsS, m \in CompsR, p \in CompsR, pre \in PreChoices \ {<<>>} } :
+      /\ pa.m.t # "abs" /\ pa.p.t # "abs"
+      /\ (pa.m.t = "x" \/ pa.p.t = "x") }
+Partials == IF Mode = "single" THEN PartialsPlain \cup PartialsWildTag ELSE PartialsPlain
 Ops == {"", "=", "<", "<=", ">", ">=", "~", "~>", "^"}
 OpsPairs == {"", "<", "<=", ">", ">=", "~", "^"}
 Comparators(ops) == { CmpOf(op, pa) : op \in ops, pa \in Partials }
